@@ -478,7 +478,12 @@ class StructureVisitor(ASTTemplate):
     def _resolve_unaryop_structure(self, node: AST.UnaryOp) -> Optional[Dataset]:
         """Resolve a UnaryOp to its dataset structure."""
         ds = self._get_dataset_structure(node.operand)
-        if ds is not None and node.op == tokens.ISNULL and len(ds.get_measures_names()) == 1:
+        if (
+            ds is not None
+            and node.op == tokens.ISNULL
+            and len(ds.get_measures_names()) == 1
+            and ds.get_measures()[0].data_type != Boolean
+        ):
             return self._build_boolean_result_structure(ds)
         return ds
 
